@@ -98,6 +98,7 @@ type World struct {
 	KeepSnaps bool
 	Dead      bool // a panic escaped BeginBlock/EndBlock/Commit
 	ConsensusHalt string // CometBFT-side validation refused a validator update list
+	MonitorPanics []string
 	AVSAddr   string
 }
 
@@ -174,13 +175,26 @@ func (w *World) finish(st *Step) *Step {
 	st.Post = w.C.Snapshot()
 	w.Last = st.Post
 	w.Steps = append(w.Steps, st)
-	for _, m := range w.Monitors {
-		m.OnStep(w, st)
-	}
+	w.runMonitors(st)
 	if !w.KeepSnaps {
 		st.Pre, st.Post = nil, nil
 	}
 	return st
+}
+
+// runMonitors calls every monitor; a panic inside a monitor is recorded (the run is then inconclusive), it
+// must not take the other monitors down.
+func (w *World) runMonitors(st *Step) {
+	for _, m := range w.Monitors {
+		func() {
+			defer func() {
+				if r := recover(); r != nil {
+					w.MonitorPanics = append(w.MonitorPanics, fmt.Sprintf("%T at step %d (%s): %v", m, st.I, st.Kind, r))
+				}
+			}()
+			m.OnStep(w, st)
+		}()
+	}
 }
 
 func (w *World) deliver(st *Step, bz []byte, err error) {
@@ -459,9 +473,7 @@ func (w *World) EndBlock() *Step {
 		st.Panic = w.C.Panics[n].Value
 		w.Dead = true
 		w.Steps = append(w.Steps, st)
-		for _, m := range w.Monitors {
-			m.OnStep(w, st)
-		}
+		w.runMonitors(st)
 		return st
 	}
 	st.EndBlock = &res
@@ -483,9 +495,7 @@ func (w *World) NextBlock(dt time.Duration) *Step {
 		st.Panic = w.C.Panics[n].Value
 		w.Dead = true
 		w.Steps = append(w.Steps, st)
-		for _, m := range w.Monitors {
-			m.OnStep(w, st)
-		}
+		w.runMonitors(st)
 		return st
 	}
 	st.Ack = true
